@@ -13,13 +13,13 @@ META = {
     "harness_bins": ["c10"],
     "extract": "C10.v",
     "technique": "Coq proofs of panic-freedom for modelled cores in which every unwrap / expect / panic! / assert! / unchecked subtraction / panicking library call of the mirrored Rust is an explicit Panic outcome (number primops, index arithmetic of string and array primops, the lexer's mode automaton, span arithmetic of error conversion, name generation for type errors), tied to the code by differential runs of the extracted models; a generated ledger of every panic-capable site of the functions mirrored by any model; the whole pipeline is only SAMPLED: every stage of the public API under catch_unwind in a worker subprocess (signal = crash) on grammar-generated programs, mutations of the repository's files and random bytes, with every diagnostic label checked against its file",
-    "level_text": "proof (partial). PROVED in Coq for every input of the core (coq/Props/C10.v, 42 theorems, closed under the global context): "
+    "level_text": "proof (partial). PROVED in Coq for every input of the core (coq/Props/C10.v, 45 theorems, closed under the global context): "
                   "(a) number primops Div, Modulo, Pow (three-way split, for every float conversion and every powf), the f64-based unary ops, arctan2 and log never reach a panicking call of the arithmetic library: division by zero and zero to a negative power are structured errors; C10_pow_unguarded_panics_iff says exactly which inputs the guard of commit c4c4d42 excludes; "
                   "(b) index arithmetic: NickelString::substring (usize casts, checked subtraction), array/slice (the assertions of Slice::slice), array/at (get(n).unwrap()), array/generate never panic; the grapheme-index look-up of std.string.find/find_all as it was before commit c9daf53 is REFUTED (C10_find_all_index_panics_iff: exactly for a match starting at the end of the subject) and the current code is proved panic-free; "
                   "(c) the modal lexer's automaton (mode stack, brace counter, %-count arithmetic, one-token buffer) over arbitrary sequences of raw tokens: every input is consumed into tokens or structured lexical errors, none of the 11 panic sites of enter_*/leave_*/bufferize/... is reachable, the mode stack is never popped when empty or at the wrong mode (invariant: modes alternate); "
                   "(d) span arithmetic: every span built by ParseError::from_lexical / from_lalrpop, by the split of a candidate interpolation and by RawSpan::fuse lies within [0, len] with start <= end (sources < 4 GiB because of the u32 casts); the escape-sequence span of the code before 62096ac is REFUTED for char boundaries and the JSON/TOML error spans before fa9c5c0 are REFUTED for the range; the current conversions are proved (from_lexical_fixed; external_error_span: in range, on char boundaries, non-empty before EOF); "
                   "(e) NameReg::select_uniq (type error reporting) as it was before 26454e7 is REFUTED for termination (diverges when candidate and candidate1 are taken), the current loop terminates on every finite registry with a free name; pretty_print_cap before 03ad279 and the lone-carriage-return assertion before 4ff7631 are refuted with witnesses, the current code proved panic-free (these nine defects were found by this check and repaired in /repo: known_findings.txt); "
-                  "(f) merge_fields' value selection by priority never reaches its unreachable!() arm (the hand-written == and > of MergePriority agree and are antisymmetric); (g) importing a TOML document never reaches the expect of number_from_float: check_floats visits every float the conversion visits, at any nesting of tables, arrays of tables, arrays and inline tables (C10_no_panic_toml_import; C10_toml_check_needs_inline_arm shows a walk without the inline-table arm is unsound); (h) the panic-site ledger: C10_sites_all_covered / C10_ledger_no_stale - each of the ~180 panic-capable sites (unwrap, expect, panic!, unreachable!, unimplemented!, assert!, debug_assert!, indexing, integer casts; for C10's own cores also unsigned subtractions and panicking library calls) in the functions mirrored by a model (vector, slice, resolve, version, lock, merge, contract_eq, nls world, eval stack, lazy thunks, lexer, parser error conversion, reporting, string primops, the modelled arms of operation.rs) is mapped to a theorem of coq/Crash (checked term), to a theorem of another property by name (existence checked), or to an explicit Unproved entry (a known-defect entry kind with a refuting lemma exists for reachable sites; none at present); the list is regenerated from /repo on every run and a site that appears, disappears or moves breaks the theorems. "
+                  "(f) merge_fields' value selection by priority never reaches its unreachable!() arm (the hand-written == and > of MergePriority agree and are antisymmetric); (g) importing a TOML document never reaches the expect of number_from_float: check_floats visits every float the conversion visits, at any nesting of tables, arrays of tables, arrays and inline tables (C10_no_panic_toml_import; C10_toml_check_needs_inline_arm shows a walk without the inline-table arm is unsound); (h) the phase invariant relied on by the AST -> runtime conversion (core/src/ast/compat.rs LabeledType::from_ast panics on an annotation type without position): for both orders in which the grammar combines WithPos and fix_type_vars, the type delivered has a position because every node rebuilt by fix_type_vars keeps the position of the node it replaces (C10_no_panic_labeled_type; C10_rebuilt_type_needs_position shows a rebuilt enum node without it breaks exactly the record-field order); (i) the panic-site ledger: C10_sites_all_covered / C10_ledger_no_stale - each of the ~180 panic-capable sites (unwrap, expect, panic!, unreachable!, unimplemented!, assert!, debug_assert!, indexing, integer casts; for C10's own cores also unsigned subtractions and panicking library calls) in the functions mirrored by a model (vector, slice, resolve, version, lock, merge, contract_eq, nls world, eval stack, lazy thunks, lexer, parser error conversion, reporting, string primops, the modelled arms of operation.rs) is mapped to a theorem of coq/Crash (checked term), to a theorem of another property by name (existence checked), or to an explicit Unproved entry (a known-defect entry kind with a refuting lemma exists for reachable sites; none at present); the list is regenerated from /repo on every run and a site that appears, disappears or moves breaks the theorems. "
                   "NOT PROVED: crash-freedom of the whole pipeline over all byte strings. It is validated by sampling only: quick tier about 5 000 inputs, thorough about 300 000 (grammar-generated well-typed / ill-typed / ill-formed programs, token- and byte-level mutations of about 900 repository files, constructs nested 200 deep on an 8 MiB stack, random bytes incl. invalid UTF-8), each through lexing, strict and tolerant parsing, typechecking (both modes), evaluation with a step budget, export to every format, query, record-spine evaluation, pretty-printing and rendering of every error, in a worker process whose death by signal is a finding. Absence of findings there is not the universal claim.",
     "level_note": "Trusted: Coq kernel; extraction (ExtrOcamlBasic + ExtrOcamlNativeString); the hand-written models' reading of operation.rs, term/string.rs, lexer.rs, parser error.rs, reporting.rs (tied by differential runs: primop cores and the merge priority selection (quick: 1500 sampled cases; thorough: all 4808 combinations of the operand pools), lexer automaton 700/20000 sources step by step with raw tokens obtained independently from the logos sub-lexers, lexical-error and split spans against the parser's own errors, TOML import on 400/8000 generated toml_edit-shaped documents); the syntactic site translator; the harness (catch_unwind + supervisor; gdb only to name the repeating frames of a stack overflow or a hang). "
                   "Modelled, not verified: floats are abstract (theorems hold for every float function); logos regex matching, LALRPOP tables, malachite, serde/toml/saphyr, codespan rendering are not modelled; usize overflow of counters at 2^64 is out of reach of inputs that fit in memory and not modelled. "
@@ -930,6 +930,46 @@ def correspond_lexer(ck, exe_model, n):
                     ck.obligation("correspondence:split_spans", "correspondence", False, "%r: lexer spans %s, model %s (%s)" % (text[:80], exp, m, line))
 
 
+# ----------------------------------------------------------------------------- annotation matrix
+
+def run_matrix(ck):
+    """Exhaustive cross product position x type shape x identifier kind (checks/c10_gen.py), every
+    program through lex, strict parse, both typechecking modes, full evaluation with pretty-printing
+    and query.  Programs are batched by position into one record literal; a batch that does not go
+    through cleanly is re-run member by member, so nothing is masked."""
+    matrix = gen.annotation_matrix()
+    batches = gen.annotation_batches(matrix, 8)
+    ck.coverage["annotation_matrix"] = {"programs": len(matrix), "positions": len(gen.ANNOT_POSITIONS), "type_shapes": len(gen.ANNOT_SHAPES),
+                                        "identifier_kinds": len(gen.ANNOT_IDS), "batches": len(batches)}
+    # a rotating sixteenth of the batches goes through the complete pipeline (tolerant parsers,
+    # pprint-ast, export to every format, record spine ...), the rest through the lean one
+    fmt_of = lambda i: "ncl" if i % 16 == ck.seed % 16 else "ncl,lean"
+    rc, res, err = run_pipeline([case_line(fmt_of(i), gen.batch_program(b).encode()) for i, b in enumerate(batches)], timeout=90)
+    if rc:
+        ck.obligation("matrix-run", "internal", False, "rc=%s %s" % (rc, err[-800:]))
+    singles = []
+    for b, r in zip(batches, res):
+        fs, st, _ = findings_of("ncl\t00", r) if r.startswith("R ") else ([("x", "x")], {}, None)
+        clean = r.startswith("R ") and not fs and all(st.get(k, "").startswith("ok") for k in ("parse_strict", "typecheck_walk", "eval_full", "query")) \
+            and not any(v == "PANIC" for v in st.values())
+        if clean:
+            for item in b:
+                ck.case(key="matrix:" + item[0], nontrivial=True)
+            ck.count("matrix_programs_clean_in_batch", len(b))
+        else:
+            singles += b
+    # a rotating seventh of the matrix with a value that violates the annotation (diagnostics path)
+    bad = gen.annotation_matrix(bad_every=7, seed=ck.seed)
+    good_bodies = {x[0] for x in matrix}
+    singles += [x for x in bad if x[0] not in good_bodies]
+    ck.count("matrix_programs_run_individually", len(singles))
+    cases = [("ncl,lean", (gen.ANNOT_PRELUDE + body).encode(), "matrix:%s" % pos, "%s/%s/%s" % (pos, shape, idk)) for body, pos, shape, idk in singles]
+    rc, res, err = run_pipeline([case_line(f, d) for f, d, _, _ in cases], timeout=60)
+    if rc:
+        ck.obligation("matrix-run", "internal", False, "rc=%s %s" % (rc, err[-800:]))
+    process(ck, cases, res)
+
+
 # ----------------------------------------------------------------------------- the ledger
 
 def ledger_obligations(ck):
@@ -988,6 +1028,7 @@ def run(ck):
         correspond_ops(ck, exe_model, n_ops)
         correspond_lexer(ck, exe_model, n_lex)
         correspond_toml(ck, exe_model, int((400 if quick else 8000) * min(scale, 1)) if scale < 1 else (400 if quick else 8000))
+    run_matrix(ck)
     cor = corpus_cases()
     focus = 2 if (appeared or gone) else 1      # a ledger mismatch widens the search
     cases = cor + generate(ck, scale * focus)
@@ -1014,6 +1055,7 @@ def run(ck):
         "```nickel blocks of doc/**/*.md unmodified (quick: a sample); (a) grammar-generated Nickel programs: well-typed (typed generator over "
         "numbers, strings with interpolation and multiline strings, booleans, enums, arrays, records with metadata, let/fun/if/match, annotations, std calls), "
         "grammar-generated well-formed JSON / YAML / TOML documents with edge scalars (inf, nan, huge and odd numbers, dates, tags, anchors and aliases, merge keys, non-ASCII and empty keys) at every structural position (tables, dotted keys, inline tables, arrays, arrays of tables, inline tables inside arrays ...), as main file, through a real file import and through std.deserialize; "
+        "an exhaustive annotation matrix (every position where the grammar allows an annotation or a type: let, let rec, let blocks, inline | and :, record fields with |, :, both, without definition, piecewise, paths, quoted and dynamic names, every metadata combination, include, patterns in let / fun / match with defaults and sub-patterns, record types and contracts, types as values, function bodies, array elements, match arms ... x every type shape: identifiers, arrays, arrows, the three kinds of forall, enums with payloads, records with and without tails, both dictionary flavours, nested x every identifier kind inside types: builtin, let-bound alias, let-bound contract, field-bound, std path, record access, application; about 7300 programs, batched by position, each through lex, parse, both typechecking modes, full evaluation with pretty-printing and query, plus a rotating seventh with values violating the annotation); "
         "ill-typed (same skeleton with sub-terms of another type, wrong annotations, every %primop% of the lexer's token table and every function of "
         "std.{array,string,number,record,contract,enum,function} applied to a pool of edge values), ill-formed (token-level damage of generated programs); "
         "(b) token-level mutations (delete/duplicate/swap/replace/insert tokens, unbalance brackets, change string delimiters, insert %{ and }, edge number "
